@@ -43,7 +43,7 @@ pub struct Case {
 }
 
 // every 5xx is a transient server failure and every 4xx other than 429 a definitive refusal, not only the common codes
-const HTTP_BEHAVIOURS: [&str; 22] = ["ok", "500", "502", "503", "504", "501", "507", "521", "599", "429", "429ra", "400", "403", "404", "401", "410", "418", "malformed200", "empty200", "refused", "reset", "stall"];
+const HTTP_BEHAVIOURS: [&str; 24] = ["ok", "500", "502", "503", "504", "501", "507", "521", "599", "429", "429ra", "400", "403", "404", "401", "410", "418", "malformed200", "empty200", "refused", "reset", "stall", "body_reset", "body_stall"];
 const TCP_BEHAVIOURS: [&str; 10] = ["mime_ok", "mime_ok_data", "v2_ok", "v2_blank", "malformed", "refused", "close_before", "close_mid", "reset_mid", "stall"];
 const SEGS: [&str; 5] = ["whole", "bytes1", "random", "blank", "tokens"];
 
@@ -310,6 +310,11 @@ fn install(net: &Network, b: &Arc<std::sync::Mutex<Behaviours>>, docs: [String; 
                         "refused" => return HttpBehaviour::Refused,
                         "reset" => return HttpBehaviour::Reset { delay_ms: 20 },
                         "stall" => return HttpBehaviour::Stall,
+                        "body_reset" | "body_stall" => {
+                            let full = http_body("ok", &doc);
+                            let cut = full.len() / 2;
+                            return HttpBehaviour::BrokenBody { status: 200, prefix: full[..cut].to_vec(), stall: name == "body_stall", delay_ms: 12 };
+                        }
                         other => other.parse().unwrap_or(500),
                     };
                     if status != 200 {
